@@ -265,9 +265,91 @@ def image_cases(draw):
     return {"format": draw(st.sampled_from(sorted(IMAGE_FORMATS))), "shape": shape, "comps": comps, "mask": mask}
 
 
+# --------------------------------------------------------------------------- container files holding several datasets
+
+def observe_loaded(datasets):
+    out = []
+    for d in datasets:
+        comps = []
+        for cid in d.main_components:
+            v = np.asarray(d[cid])
+            comps.append([cid.label, v.dtype.kind, v.astype(float).tolist() if v.dtype.kind in "iuf" else [str(x) for x in v.ravel().tolist()]])
+        out.append({"label": d.label, "shape": list(d.shape), "components": comps, "n_pixel": len(d.pixel_component_ids),
+                    "n_world": len(d.world_component_ids),
+                    "world": [np.asarray(d[w], dtype=float).tolist() for w in d.world_component_ids]})
+    return out
+
+
+def fn_container(spec, rec):
+    from glue.core import DataCollection
+    from glue.core.data_factories import load_data
+    from glue.core.state import GlueSerializer, GlueUnSerializer
+    tmp = tempfile.mkdtemp(prefix="c19c-", dir=os.environ.get("TMPDIR"))
+    try:
+        arrays = []
+        for k, a in enumerate(spec["arrays"]):
+            n = int(np.prod(a["shape"]))
+            arrays.append(("a%d" % k, (np.arange(n, dtype=a["dtype"]) * a["step"] + k).reshape(a["shape"])))
+        if spec["format"] == "hdf5":
+            import h5py
+            path = os.path.join(tmp, "container.hdf5")
+            with h5py.File(path, "w") as f:
+                for name, arr in arrays:
+                    f[name] = arr
+        else:
+            from astropy.io import fits
+            path = os.path.join(tmp, "container.fits")
+            hdus = [fits.PrimaryHDU(arrays[0][1])] + [fits.ImageHDU(arr, name=name.upper()) for name, arr in arrays[1:]]
+            fits.HDUList(hdus).writeto(path)
+        try:
+            loaded = load_data(path)
+        except Exception as e:  # noqa
+            if blame(e)[0] != "glue":
+                raise
+            rec.label("load-raises:" + type(e).__name__)
+            return
+        loaded = loaded if isinstance(loaded, list) else [loaded]
+        before = observe_loaded(loaded)
+        total = sorted(float(x) for d in before for c in d["components"] for x in np.ravel(c[2]))
+        exp_total = sorted(float(x) for _, arr in arrays for x in arr.ravel())
+        if total != exp_total:
+            raise Mismatch("container-file-values-differ/%s" % spec["format"], {"loaded": before})
+        dc = DataCollection(loaded)
+        try:
+            text = GlueSerializer(dc, include_data=False).dumps()
+        except Exception as e:  # noqa
+            rec.label("loud-at-save:" + type(e).__name__)
+            return
+        try:
+            dc2 = GlueUnSerializer.loads(text).object("__main__")
+        except Exception as e:  # noqa
+            if blame(e)[0] != "glue":
+                raise
+            raise Mismatch("by-reference-session-does-not-reload/%s/%s" % (spec["format"], type(e).__name__), repr(e)[:300])
+        after = observe_loaded(list(dc2))
+        if before != after:
+            k = next((i for i, (x, y) in enumerate(zip(before, after)) if x != y), None)
+            raise Mismatch("by-reference-session-differs/container-%s" % spec["format"],
+                           {"index": k, "before": before[k] if k is not None else len(before), "after": after[k] if k is not None else len(after)})
+    finally:
+        shutil.rmtree(tmp, ignore_errors=True)
+    shapes = {tuple(a["shape"]) for a in spec["arrays"]}
+    rec.nt(len(loaded) >= 2 and len({len(sh) for sh in shapes}) >= 1 and len(shapes) >= 2)
+    rec.label("container:" + spec["format"], "datasets:%d" % len(loaded), "ndims:" + "+".join(sorted({str(len(sh)) for sh in shapes})))
+
+
+@st.composite
+def container_cases(draw):
+    arrays = draw(st.lists(st.fixed_dictionaries({"shape": st.lists(st.integers(1, 4), min_size=1, max_size=3),
+                                                   "dtype": st.sampled_from(["float64", "float32", "int32", "int64"]),
+                                                   "step": st.sampled_from([1, 2, 3])}), min_size=1, max_size=4))
+    return {"format": draw(st.sampled_from(["hdf5", "fits"])), "arrays": arrays}
+
+
 def checks(tier):
-    n = {"quick": (2400, 1800), "thorough": (48000, 36000)}.get(tier, (10, 10))
+    n = {"quick": (2400, 1800, 600), "thorough": (48000, 36000, 12000)}.get(tier, (10, 10, 10))
     return [
         Check("tables", fn_table, strategy=table_cases(), examples=n[0]),
         Check("images", fn_image, strategy=image_cases(), examples=n[1]),
+        Check("container_files", fn_container, strategy=container_cases(), examples=n[2]),
     ]
